@@ -313,6 +313,36 @@ def reader_namespaces(f: FuncInfo) -> tuple[Form, Form]:
                 raise AnalysisError(f'{f.key}: namespace loop does not advance position by 1')
     calls = [x for x in ast.walk(f.node) if isinstance(x, ast.Call)
              and dotted(x.func) == 'NamespaceNode']
+    # second idiom: a comprehension over enumerate(nsmap.items(), START) creating the nodes
+    for comp in ast.walk(f.node):
+        if not isinstance(comp, (ast.GeneratorExp, ast.ListComp)) or len(comp.generators) != 1:
+            continue
+        if not (isinstance(comp.elt, ast.Call) and dotted(comp.elt.func) == 'NamespaceNode'):
+            continue
+        g = comp.generators[0]
+        it = g.iter
+        if not (isinstance(it, ast.Call) and dotted(it.func) == 'enumerate' and it.args
+                and 'nsmap' in stmt_text(it.args[0])):
+            raise AnalysisError(f'{f.key}: namespace comprehension is not over enumerate(nsmap…)')
+        start_e = it.args[1] if len(it.args) > 1 else next(
+            (k.value for k in it.keywords if k.arg == 'start'), ast.Constant(0))
+        if first is None:
+            raise AnalysisError(f'{f.key}: position base not found')
+        # `position` holds first (offset from self.position); START is a form over it
+        start = linform(start_e, {'position': add(first, {})})
+        post_filter = any("!= 'xml'" in stmt_text(c) for c in g.ifs)
+        pre_filter = "!= 'xml'" in stmt_text(it.args[0])
+        xml_first = any(isinstance(c.args[0], ast.Constant) and c.args[0].value == 'xml'
+                        for c in calls if c.args and c is not comp.elt)
+        if not xml_first or not (post_filter or pre_filter):
+            raise AnalysisError(f'{f.key}: namespace comprehension without the xml node/filter')
+        if pre_filter:
+            last = add(start, {'N': 1, 'X': 1, '1': -2})     # N - [xml in map] items
+        else:
+            # the filter is applied after enumerate: the skipped 'xml' entry still consumes a
+            # number, so offsets run up to START + N - 1
+            last = add(start, {'N': 1, '1': -1})
+        return first, last
     fixed = len(calls) - loop_nodes
     if first is None or fixed != 1 or loop_nodes != 1 or not guard:
         raise AnalysisError(f'{f.key}: namespace-node numbering idiom not recognised '
@@ -514,9 +544,11 @@ def r02_3(ctx, counts) -> RuleResult:
                     elts = list(zip(tg.elts, v.elts))
                 for t_, v_ in elts:
                     if isinstance(t_, ast.Name) and v_ is not None and (
-                            isinstance(v_, (ast.Set, ast.SetComp)) or
-                            (isinstance(v_, ast.Call) and dotted(v_.func) == 'set')):
-                        set_names.add(t_.id)
+                            isinstance(v_, (ast.Set, ast.SetComp, ast.Dict, ast.DictComp,
+                                            ast.List, ast.ListComp)) or
+                            (isinstance(v_, ast.Call) and dotted(v_.func) in (
+                                'set', 'dict', 'list', 'frozenset', 'OrderedDict'))):
+                        set_names.add(t_.id)    # a local accumulator of results
         cfg = CFG(f.node)
         facts = branch_facts(cfg)
         for nd in cfg.nodes:
@@ -555,6 +587,34 @@ def r02_3(ctx, counts) -> RuleResult:
                                      f'without sorted(key=node_position): the result of a set '
                                      f'operator must be duplicate-free and in document order'))
     counts['set_yields'] = n
+    # operand isolation: each operand of a set operator is evaluated on its own copy of the
+    # context (an operand such as a leading // moves the focus and does not restore it)
+    n_ops = 0
+    for f, syms in sorted(funcs.items(), key=lambda kv: kv[0].key):
+        if not set(syms) & {'|', 'union', 'intersect', 'except'}:
+            continue
+        for c in walk_local(f.node):
+            if isinstance(c, ast.Call) and isinstance(c.func, ast.Attribute) and \
+                    c.func.attr in ('select', 'evaluate') and \
+                    isinstance(c.func.value, ast.Subscript) and \
+                    dotted(c.func.value.value) == 'self' and c.args:
+                n_ops += 1
+                a = c.args[0]
+                iso = isinstance(a, ast.Call) and dotted(a.func) in ('copy', 'copy.copy') and \
+                    len(a.args) == 1 and dotted(a.args[0]) == 'context'
+                res.instances.append(f'{f.key}: {stmt_text(c)[:50]} on a copy={iso}')
+                if iso:
+                    res.ok()
+                else:
+                    res.fail(finding('R02.3', f, c, f'operand {stmt_text(c.func.value)} shared context',
+                                     f'`{stmt_text(c)[:60]}` evaluates an operand of '
+                                     f'{sorted(set(syms))} on the shared context while its '
+                                     f'siblings get copy(context): a leading // or / in that '
+                                     f'operand moves the focus seen by the other operand '
+                                     f'(//b intersect b from a non-root focus)'))
+    counts['setop_operands'] = n_ops
+    if n_ops < 3:
+        raise AnalysisError(f'only {n_ops} set-operator operand evaluations located')
     # `concatenated` is only set by the union led on the operand it adopts
     setters = []
     for f in model.all_functions():
